@@ -291,6 +291,10 @@ def run_keep(repo, ns, case):
                 kw["post_routine"] = lambda _c, q, _pair: q.measure()
             if case["seq"] and "sequential" in accepted:
                 kw["sequential"] = True
+            if case.get("minfid") and "min_fidelity_all_at_end" in accepted:
+                kw["min_fidelity_all_at_end"] = 80
+                if "max_tries" in accepted:
+                    kw["max_tries"] = 2
             if "expect_phi_plus" in accepted:
                 kw["expect_phi_plus"] = case["expect"]
             elif not case["expect"]:
@@ -301,7 +305,12 @@ def run_keep(repo, ns, case):
                     q.measure()
                 qs = []
             else:
-                r = fn(**kw)
+                try:
+                    r = fn(**kw)
+                except Exception as e:  # noqa  the API's own validation of the argument combination (a ValueError;
+                    # inside a min-fidelity loop context it surfaces as that context's AssertionError)
+                    out["rejected"] = type(e).__name__ + ": " + (str(e).splitlines()[0][:160] if str(e) else "")
+                    r = []
                 qs = r[0] if isinstance(r, tuple) else r   # *_with_info variants return (qubits, infos)
             conn.flush()
             out["ids"] = [q.qubit_id for q in qs]
@@ -365,6 +374,18 @@ def judge(ctx, ns, table, case, res, tcases, tmeta):
                   trace=res["trace"], fidelity=res["fid"], error=res["error"])
     if res["error"]:
         ctx.violation("the EPR operation raised", replay, key=None)
+        return
+    # the API's validation (builder._check_epr_args): sequential with several pairs needs a post routine that
+    # consumes them; without sequential mode the pairs must fit into the device
+    must_reject = bool((case["seq"] and case["n"] > 1 and not case["post"]) or
+                       (not case["seq"] and case["n"] > eff_maxq(case)))
+    if case.get("kind") != "context" and bool(res.get("rejected")) != must_reject:
+        replay["rejected"] = res.get("rejected")
+        ctx.violation("the API " + ("accepts an argument combination it must reject" if must_reject else
+                                    "rejects a legal argument combination"), replay, key=None)
+        return
+    if res.get("rejected"):
+        ctx.coverage["api_rejections_as_specified"] = ctx.coverage.get("api_rejections_as_specified", 0) + 1
         return
     recv = case["call"].startswith("recv")
     corrected = recv and case["expect"]
@@ -636,6 +657,25 @@ def run(ctx):
                 for n in (1, 2):
                     for tup in some(n):
                         add(mk_case(shape, hw, None, (0, []), n, tup, qlink=fmt))
+    # (v) argument combinations decoupled: sequential x post routine x number x expectation x min-fidelity loop,
+    # independently, on several devices; the API's own validation decides what is legal
+    nonphi = [v for v in bvals if v != phi_plus]
+    for call in ("recv_keep", "recv_keep_with_info", "create_keep"):
+        for seq, post, n, minfid in itertools.product((False, True), (False, True), (1, 2, 3), (False, True)):
+            for expect in ((True, False) if call.startswith("recv") else (True,)):
+                for hw, maxq in (("generic", None), ("generic", 1), ("generic", 2), ("nv", None)):
+                    allt = [t for t in itertools.product(bvals, repeat=n) if any(b != phi_plus for b in t)]
+                    k = (2 if n == 1 else 1) if quick else (3 if n == 1 else 6)
+                    for tup in ctx.rng.sample(allt, min(k, len(allt))):
+                        c = dict(cfg="args", hardware=hw, call=call, post=post, seq=seq, live=[0, []], n=n,
+                                 bells=list(tup), expect=expect)
+                        if maxq:
+                            c["maxq"] = maxq
+                        if minfid:
+                            c["minfid"] = True
+                        if hw == "generic" and maxq is None and n + 1 > 0:
+                            c["maxq"] = max(2, n + 1)
+                        cases.append(c)
     found, public = discover_expect_variants(ctx)
     ctx.coverage["expect_phi_plus_variants"] = [f[0] for f in found]
     ctx.coverage["public_epr_socket_methods"] = public
